@@ -84,13 +84,9 @@ func (s *state) ProcessDescriptor(desc SegmentationDescriptor) ([]SegmentationDe
 	for _, e := range s.received {
 		if e != nil {
 			for _, d := range e.descs {
-				if e.pts == pts {
-					if desc.Equal(d) {
-						// Duplicate desc found
-						return nil, gots.ErrSCTE35DuplicateDescriptor
-					}
-					e.descs = append(e.descs, desc)
-					descAdded = true
+				if e.pts == pts && desc.Equal(d) {
+					// Duplicate desc found
+					return nil, gots.ErrSCTE35DuplicateDescriptor
 				}
 				// check if we have seen a VSS signal with the same signalId and
 				// same eventId before.
@@ -113,6 +109,12 @@ func (s *state) ProcessDescriptor(desc SegmentationDescriptor) ([]SegmentationDe
 						return nil, gots.ErrSCTE35DuplicateDescriptor
 					}
 				}
+			}
+			if e.pts == pts {
+				// not a duplicate: remember it, once, with the others
+				// received for this pts
+				e.descs = append(e.descs, desc)
+				descAdded = true
 			}
 		}
 	}
